@@ -15,6 +15,7 @@ import (
 	"sort"
 	"strings"
 	"sync"
+	"sync/atomic"
 	"testing"
 	"testing/synctest"
 	"time"
@@ -152,7 +153,7 @@ type World struct {
 	gen    int
 	step   int
 	healed bool
-	dead   bool // teardown: transport fails instantly
+	dead   atomic.Bool // teardown: transport fails instantly
 	setup  bool // setup phase: PG gate auto-executes
 
 	mu         sync.Mutex
@@ -238,7 +239,7 @@ func (simTransport) RoundTrip(req *http.Request) (*http.Response, error) {
 		return nil, errors.New("no simulation world")
 	}
 	host := req.URL.Hostname()
-	if w.dead || !w.liveHost(host) {
+	if w.dead.Load() || !w.liveHost(host) {
 		return nil, fmt.Errorf("dial tcp %s: connection refused (retired)", host)
 	}
 	reqs, batch, err := node.ParseBody(body)
@@ -324,7 +325,7 @@ func (w *World) gate(ev *fakepg.Event) (fakepg.Verdict, string) {
 	if w.setup || strings.HasPrefix(ev.Owner, "setup") {
 		return fakepg.Exec, ""
 	}
-	if w.dead {
+	if w.dead.Load() {
 		return fakepg.DropBefore, ""
 	}
 	if ev.Kind == "copy" || strings.HasPrefix(ev.Class, "copy ") {
@@ -336,6 +337,11 @@ func (w *World) gate(ev *fakepg.Event) (fakepg.Verdict, string) {
 		// of the released event. A COPY only touches the transaction's
 		// private overlay, so no interleaving observable by another session
 		// is lost.
+		if w.plan.Burst {
+			// several trees run at once: no draw, no log line (their order
+			// would depend on the Go scheduler)
+			return fakepg.Exec, ""
+		}
 		w.stMu.Lock()
 		d := w.decidePG(ev)
 		w.sched.Log.Add("%d inline pg %s %s -> %d%s", w.step, ev.Owner, ev.Class, d.v, d.code)
@@ -618,6 +624,23 @@ func Run(t *testing.T, plan *Plan, st *core.Stream, extra Extra, keepLog bool) (
 	installHooks()
 	res = &Result{Prop: plan.Prop, Seed: plan.Seed, Stats: map[string]int{}, PlanDigest: plan.Digest()}
 	w := &World{t: t, plan: plan, st: st, srcs: map[string]*srcState{}, stats: res.Stats, projCache: map[string][]string{}, extra: extra, scriptFired: map[int]bool{}}
+	// The bubble runs on a helper goroutine: when the race detector reported
+	// something during the bubble, synctest.Test ends with t.FailNow(), which
+	// must not take the worker's goroutine (and the remaining runs) with it.
+	bubbleDone := make(chan any, 1)
+	go func() {
+		var pv any
+		defer func() { bubbleDone <- pv }()
+		defer func() { pv = recover() }()
+		runBubble(t, w, res, extra, keepLog)
+	}()
+	if pv := <-bubbleDone; pv != nil {
+		panic(pv)
+	}
+	return finishRun(w, res, plan, st, keepLog)
+}
+
+func runBubble(t *testing.T, w *World, res *Result, extra Extra, keepLog bool) {
 	func() {
 		defer func() {
 			if r := recover(); r != nil {
@@ -669,6 +692,9 @@ func Run(t *testing.T, plan *Plan, st *core.Stream, extra Extra, keepLog bool) (
 			res.SimTimeMs = w.clock.Elapsed().Milliseconds()
 		})
 	}()
+}
+
+func finishRun(w *World, res *Result, plan *Plan, st *core.Stream, keepLog bool) *Result {
 	res.Violations = w.viol
 	res.HarnessErr = w.harnessErr
 	if w.srv != nil && w.srv.Unsupported != nil && res.HarnessErr == "" {
@@ -693,12 +719,16 @@ func Run(t *testing.T, plan *Plan, st *core.Stream, extra Extra, keepLog bool) (
 		res.PGClasses = w.pgClasses
 		res.HTTPSizes = w.httpSizes
 	}
+	if plan.Burst {
+		res.NonTrivial = w.stats["commit_data"] > 0 && w.stats["burst_windows_concurrent"] > 0
+		return res
+	}
 	res.NonTrivial = w.stats["commit_data"] > 0 && (w.stats["fault_total"] > 0 || w.stats["chain_events"] > 0 || len(w.pairs) > 1 || plan.Checks["input_driven"])
 	return res
 }
 
 func (w *World) teardown() {
-	w.dead = true
+	w.dead.Store(true)
 	// drainOnce fails every parked HTTP/PG/step event and grants lock
 	// requests that are enabled (never one whose lock is still held: the
 	// real Lock() behind it would block on a mutex, which synctest cannot
